@@ -201,7 +201,7 @@ def field_narrowings(ctx: Ctx, c: ClassInfo, f: FieldInfo) -> List[Tuple[str, Tu
     if vkw is not None:
         nodes = vkw.elts if isinstance(vkw, (ast.List, ast.Tuple)) else [vkw]
         for nd in nodes:
-            if isinstance(nd, ast.Call) and ast.unparse(nd.func) == '_type_checker' and nd.args:
+            if isinstance(nd, ast.Call) and ctx.model.canon(ast.unparse(nd.func)) == '_type_checker' and nd.args:
                 tt = ctx.ev.expr(nd.args[0], _State(), f.cls.module, None, 0)
                 td = _type_desc(ctx, tt, self_t)
                 force = any(kw.arg == 'force' and isinstance(kw.value, ast.Constant) and kw.value.value is True for kw in nd.keywords)
